@@ -2,7 +2,9 @@
 
 cells() -> {cell name: fingerprint}.  A cell is
   * every attribute of every loaded sharepoint2text module that is not a module / class / function
-    (containers are walked, other objects contribute their type only — identity is never used),
+    (containers are walked; one-shot iterators contribute what they still have to give, generators where they stand,
+    streams their position, random generators their state, instances of package classes their attributes; any other
+    object its type only — identity is never used),
   * `<module>:<Class>.<attr>` for the non-callable, non-descriptor attributes of package classes,
   * `<module>:<function>` for memoised functions (cache_info().currsize) and `<function>.<defaults>` for
     default values / function attributes,
@@ -40,7 +42,53 @@ def _fp(v, depth=0):
         return "<%s %s>" % (type(v).__name__, getattr(v, "__qualname__", "?"))
     if hasattr(v, "__dataclass_fields__"):
         return type(v).__name__ + "(" + ",".join(f + "=" + _fp(getattr(v, f, None), depth + 1) for f in v.__dataclass_fields__) + ")"
-    return "<obj %s>" % type(v).__name__
+    return _fp_stateful(v, depth)
+
+
+def _fp_stateful(v, depth):
+    """objects that are not containers but hold state an extraction can use up or move: one-shot iterators (what they
+    still have to give — read from a deep COPY, the object itself is never advanced), generators (where they stand),
+    streams (position), random generators (state), instances of package classes (their attributes)"""
+    t = type(v)
+    name = t.__name__
+    if hasattr(t, "__next__"):
+        fr = getattr(v, "gi_frame", False)
+        if fr is not False:                                        # generator object
+            return "<gen %s %s>" % (name, "exhausted" if fr is None else "at:%d" % fr.f_lasti)
+        try:
+            import copy
+            import itertools
+            import warnings
+            with warnings.catch_warnings():
+                warnings.simplefilter("ignore")
+                c = copy.deepcopy(v)
+            if c is not v:
+                rest = list(itertools.islice(c, 2048))
+                return "<iter %s remaining=%d:%s>" % (name, len(rest), _digest(_fp(rest, depth + 1)))
+        except Exception:
+            pass
+        try:
+            import operator
+            return "<iter %s hint=%d>" % (name, operator.length_hint(v, -1))
+        except Exception:
+            return "<iter %s>" % name
+    if hasattr(v, "tell") and hasattr(v, "seek"):
+        try:
+            return "<stream %s pos=%r closed=%r>" % (name, v.tell(), getattr(v, "closed", None))
+        except Exception:
+            return "<stream %s closed>" % name
+    if hasattr(v, "getstate") and hasattr(v, "seed"):
+        try:
+            return "<rng %s %s>" % (name, _digest(repr(v.getstate())))
+        except Exception:
+            pass
+    if str(getattr(t, "__module__", "")).startswith("sharepoint2text") or name == "SimpleNamespace":
+        try:
+            d = dict(vars(v))
+        except TypeError:
+            d = {s: getattr(v, s, None) for s in getattr(t, "__slots__", ())}
+        return "<obj %s %s>" % (name, _fp(d, depth + 1))
+    return "<obj %s>" % name
 
 
 def _digest(s):
